@@ -20,6 +20,7 @@ import (
 	"strings"
 	"sync"
 	"sync/atomic"
+	"time"
 
 	"verif/hooks"
 	"verif/run"
@@ -59,6 +60,24 @@ func goldenPath(dir string) string { return filepath.Join(dir, "golden.json") }
 // prepare computes the golden result of every call in a fresh process each.
 func prepare(dir, tier string, seed int64) error {
 	self, _ := os.Executable()
+	// is the race detector really watching?  A child deliberately races on a harness variable;
+	// a report must appear in its log.
+	st := exec.Command(self, "-raceselftest")
+	st.Env = append(os.Environ(), "GORACE=halt_on_error=0 log_path="+filepath.Join(dir, "selftest-race"))
+	st.Run()
+	active := "0"
+	if logs, _ := filepath.Glob(filepath.Join(dir, "selftest-race*")); len(logs) > 0 {
+		if b, _ := os.ReadFile(logs[0]); raceHeader.Match(b) {
+			active = "1"
+		}
+		for _, l := range logs {
+			os.Remove(l)
+		}
+	}
+	os.WriteFile(filepath.Join(dir, "detector_active"), []byte(active), 0o644)
+	if nb := noRaceBin(); nb != "" {
+		self = nb // golden results do not need the detector; a -race process costs ~20x more to start here
+	}
 	cs := catalogue()
 	out := make(map[string]result, len(cs))
 	var mu sync.Mutex
@@ -98,6 +117,24 @@ func prepare(dir, tier string, seed int64) error {
 	b, _ := stdjson.Marshal(out)
 	return os.WriteFile(goldenPath(dir), b, 0o644)
 }
+
+// noRaceBin is the second build of this program without the race detector (built by ./check
+// when cmd/c18/NORACE_TOO exists), or "".
+func noRaceBin() string {
+	b := os.Getenv("VERIF_BIN_NORACE")
+	if b == "" {
+		return ""
+	}
+	if _, err := os.Stat(b); err != nil {
+		return ""
+	}
+	return b
+}
+
+// raceShards is the number of worker shards that run under the race detector; the others run
+// the same histories in the plain build (about 16x cheaper here), where they still compare
+// every call with its golden result, keep the pool-poisoning hooks on and re-hash returned data.
+const raceShards = 6
 
 func loadGolden(w *run.W) map[string]result {
 	goldenMu.Lock()
@@ -139,12 +176,24 @@ func equalResult(c *call, got, want result) bool {
 }
 
 type historyArgs struct {
-	Mode       string `json:"mode"` // "seq" | "conc"
+	Mode       string `json:"mode"` // "seq" | "conc" | "heavy" (sequential, with the large/deep calls mixed in)
 	Seed       uint64 `json:"seed"`
 	Len        int    `json:"len"`
 	Goroutines int    `json:"goroutines"`
 	Yield      bool   `json:"yield"`
+	Heavy      int    `json:"heavy,omitempty"`  // number of heavy calls mixed into a "heavy" history
 	Subset     string `json:"subset,omitempty"` // restrict to calls whose name contains this
+}
+
+// medium calls work on ~64 KiB documents: an order of magnitude dearer than the rest under
+// -race, so they are drawn ten times less often (sizes of workloads never decide anything).
+func isMedium(c *call) bool { return strings.Contains(c.name, "big-64k") }
+
+func pick(r *rand.Rand, light, medium []*call) *call {
+	if len(medium) > 0 && (len(light) == 0 || r.IntN(12) == 0) {
+		return medium[r.IntN(len(medium))]
+	}
+	return light[r.IntN(len(light))]
 }
 
 func runHistory(w *run.W, a *historyArgs) {
@@ -153,18 +202,22 @@ func runHistory(w *run.W, a *historyArgs) {
 		return
 	}
 	cs := catalogue()
-	var pool []*call
+	var light, medium, heavy []*call
 	for i := range cs {
 		c := &cs[i]
 		if a.Subset != "" && !strings.Contains(c.name, a.Subset) {
 			continue
 		}
-		if a.Mode == "conc" && c.heavy {
-			continue
+		switch {
+		case c.heavy:
+			heavy = append(heavy, c)
+		case isMedium(c):
+			medium = append(medium, c)
+		default:
+			light = append(light, c)
 		}
-		pool = append(pool, c)
 	}
-	if len(pool) == 0 {
+	if len(light)+len(medium) == 0 {
 		return
 	}
 	hooks.EnablePoison(true)
@@ -199,13 +252,30 @@ func runHistory(w *run.W, a *historyArgs) {
 		*prev = c.kind
 	}
 
-	if a.Mode == "seq" {
+	switch a.Mode {
+	case "seq":
 		r := rand.New(rand.NewPCG(a.Seed, 18))
 		prev := "-"
 		for i := 0; i < a.Len; i++ {
-			check(pool[r.IntN(len(pool))], r, &prev)
+			check(pick(r, light, medium), r, &prev)
 		}
-	} else {
+	case "heavy":
+		// very large and very deep data between ordinary calls: what a big call leaves in the
+		// pools and caches must not show in the calls that follow it
+		r := rand.New(rand.NewPCG(a.Seed, 19))
+		prev := "-"
+		at := map[int]bool{}
+		for len(at) < min(a.Heavy, a.Len) && len(heavy) > 0 {
+			at[r.IntN(a.Len)] = true
+		}
+		for i := 0; i < a.Len; i++ {
+			if at[i] {
+				check(heavy[r.IntN(len(heavy))], r, &prev)
+				w.Count("heavy_calls_in_histories", 1)
+			}
+			check(pick(r, light, medium), r, &prev)
+		}
+	default:
 		var wg sync.WaitGroup
 		for gi := 0; gi < a.Goroutines; gi++ {
 			wg.Add(1)
@@ -224,7 +294,7 @@ func runHistory(w *run.W, a *historyArgs) {
 				r := rand.New(rand.NewPCG(a.Seed, uint64(gi)+100))
 				prev := "-"
 				for i := 0; i < a.Len; i++ {
-					check(pool[r.IntN(len(pool))], r, &prev)
+					check(pick(r, light, medium), r, &prev)
 				}
 			}(gi)
 		}
@@ -244,8 +314,15 @@ func runHistory(w *run.W, a *historyArgs) {
 		}
 	}
 	w.Count("retained_slices_rechecked", int64(len(kept)))
-	w.Count("history_"+a.Mode, 1)
-	w.Count("ops_"+a.Mode, int64(len(order)))
+	mode := a.Mode
+	if mode == "heavy" {
+		mode = "seq"
+	}
+	w.Count("history_"+mode, 1)
+	w.Count("ops_"+mode, int64(len(order)))
+	if raceBuild {
+		w.Count("ops_"+mode+"_under_race_detector", int64(len(order)))
+	}
 	for p := range pairs {
 		w.Shape("pair|" + p)
 	}
@@ -259,12 +336,6 @@ func runHistory(w *run.W, a *historyArgs) {
 		n := min(len(order), 12)
 		w.Sample(map[string]any{"exec": "history", "mode": a.Mode, "first_calls": order[:n], "ops": len(order), "distinct_kind_pairs": len(pairs)})
 	}
-}
-
-// ---- determinism across processes and insertion orders
-
-type detArgs struct {
-	Seed uint64 `json:"seed"`
 }
 
 // ---- race log scanning (parent)
@@ -294,6 +365,9 @@ func post(p *run.Parent) {
 			p.AddViolation("race-log", "data-race", map[string]string{"frames": key}, map[string]string{"log": f},
 				"the race detector reported a data race (log %s):\nWARNING: DATA RACE%s", f, run.Trunc(blk, 3000))
 		}
+	}
+	if b, _ := os.ReadFile(filepath.Join(p.Dir, "detector_active")); string(b) == "1" {
+		p.Counters["race_detector_selftest_reported"] = 1
 	}
 	p.Counters["race_reports"] = int64(total)
 	p.Counters["race_logs_scanned"] = int64(len(files))
@@ -332,7 +406,13 @@ var M = &run.Monitor{
 		"golden results come from the same library build run in a fresh process per call; without Deterministic map-typed outputs are compared modulo member order",
 		"on a failing writer the bytes already delivered are not part of the result (only the error is compared), see DESIGN C18",
 	},
-	Prepare:   prepare,
+	Prepare: prepare,
+	WorkerBin: func(self string, shard int) string {
+		if shard >= raceShards {
+			return noRaceBin()
+		}
+		return ""
+	},
 	WorkerEnv: func(dir string) []string { return []string{"GORACE=halt_on_error=0 log_path=" + filepath.Join(dir, "race"), "C18_DIR=" + dir} },
 	Post:      post,
 	Floors: func(c map[string]int64, tier string) []string {
@@ -345,7 +425,14 @@ var M = &run.Monitor{
 		need("ops_seq", 5000)
 		need("ops_conc", 5000)
 		need("retained_slices_rechecked", 2000)
-		need("race_logs_scanned", 0)
+		need("heavy_calls_in_histories", 20)
+		if os.Getenv("VERIF_NORACE") != "1" {
+			need("workers_under_race_detector", 1)
+			need("ops_conc_under_race_detector", 500)
+		}
+		if os.Getenv("VERIF_NORACE") != "1" {
+			need("race_detector_selftest_reported", 1) // a planted race in a child process must be reported
+		}
 		if c["hooks_available"] > 0 {
 			need("hook_pool_gets", 5000)
 			need("hook_pool_poisoned_bytes", 100000)
@@ -366,16 +453,65 @@ func main() {
 		os.Stdout.Write(b)
 		return
 	}
+	if len(os.Args) == 2 && os.Args[1] == "-raceselftest" {
+		x := 0
+		done := make(chan bool)
+		go func() { x++; done <- true }()
+		x++
+		<-done
+		_ = x
+		return
+	}
+	if len(os.Args) == 2 && os.Args[1] == "-times" {
+		// developer aid: cost of each catalogue call in this build
+		cs := catalogue()
+		type ct struct {
+			name string
+			d    time.Duration
+		}
+		var ts []ct
+		for i := range cs {
+			t0 := time.Now()
+			cs[i].fn(func(string, func() []byte) {})
+			cs[i].fn(func(string, func() []byte) {})
+			ts = append(ts, ct{cs[i].name, time.Since(t0) / 2})
+		}
+		sort.Slice(ts, func(i, j int) bool { return ts[i].d > ts[j].d })
+		var tot time.Duration
+		for _, t := range ts {
+			tot += t.d
+		}
+		fmt.Println(len(ts), "calls, total", tot)
+		for _, t := range ts[:min(40, len(ts))] {
+			fmt.Println(t.d, t.name)
+		}
+		return
+	}
 	run.Def(M, "history", runHistory)
 	M.Gen = func(w *run.W) {
-		n := w.Pick(6, 40)
-		for i := 0; i < n; i++ {
-			r := w.Rand("hist", w.Shard, i)
-			// sequential history over the whole catalogue (incl. heavy calls)
-			w.Do("history", &historyArgs{Mode: "seq", Seed: r.Uint64(), Len: w.Pick(250, 500)})
-			// concurrent history
-			w.Do("history", &historyArgs{Mode: "conc", Seed: r.Uint64(), Len: w.Pick(40, 80), Goroutines: 16, Yield: i%2 == 0})
+		if raceBuild {
+			w.Count("workers_under_race_detector", 1)
+		} else {
+			w.Count("workers_plain_build", 1)
 		}
+		nSeq, nConc, seqLen, concLen, heavyLen, heavyN := w.Pick(8, 60), w.Pick(8, 60), w.Pick(300, 500), w.Pick(40, 60), w.Pick(150, 400), w.Pick(12, 60)
+		if raceBuild {
+			// under the detector every operation costs an order of magnitude more: fewer, shorter histories,
+			// weighted towards the concurrent ones (that is where it can see something the plain build cannot)
+			nSeq, nConc, seqLen, concLen, heavyLen, heavyN = w.Pick(1, 6), w.Pick(2, 16), w.Pick(120, 300), w.Pick(20, 40), w.Pick(30, 120), w.Pick(2, 12)
+		}
+		for i := 0; i < max(nSeq, nConc); i++ {
+			r := w.Rand("hist", w.Shard, i)
+			if i < nSeq {
+				w.Do("history", &historyArgs{Mode: "seq", Seed: r.Uint64(), Len: seqLen})
+			}
+			if i < nConc {
+				w.Do("history", &historyArgs{Mode: "conc", Seed: r.Uint64(), Len: concLen, Goroutines: 16, Yield: i%2 == 0})
+			}
+		}
+		// one sequential history per worker with the 1 MiB / depth > 1000 calls mixed in
+		r := w.Rand("heavy", w.Shard)
+		w.Do("history", &historyArgs{Mode: "heavy", Seed: r.Uint64(), Len: heavyLen, Heavy: heavyN})
 	}
 	run.Main(M)
 }
